@@ -351,6 +351,22 @@ def builders(model):
                 ast.Mult, leaf(I, w, 'L2NormSquared'), I.binop(
                     ast.Add, inst(I, 'PowerOperator', X(w), 2),
                     sym_elem(X(w), 'v'))))
+    # functionals whose _call tests the sign of the entries (effective
+    # domain {x > 0}): generic points inside it, also for the point of a
+    # Bregman distance; decided at a designated numeric point (H9.region)
+    pos = {}
+    for j, sfx in enumerate(('0', '1', '2', '00', '01', '02', '10', '11',
+                             '12')):
+        pos['x' + sfx] = 0.3 + 0.05 * j
+        pos['y' + sfx] = 0.33 + 0.05 * j
+        pos['z' + sfx] = 0.36 + 0.05 * j
+    for name_, b_ in list(B.items()):
+        if 'KullbackLeibler' in name_ and 'ConvexConj' not in name_:
+            def wrapped(I, b_=b_):
+                if getattr(I.hooks, 'region', None) is None:
+                    I.hooks.region = dict(pos)
+                return b_(I)
+            B[name_] = wrapped
     return B
 
 
